@@ -400,6 +400,36 @@ def run(ctx):
                 "that is not the checkpointed one (e.g. without the checkpointed population, which the loop does not record again), so every later entry is paired with the wrong population") if bad_calls else "",
                disc="history|mutated")
 
+    # ---- the sampler-specific extras are merged over the base payload ({**payload, **extras}): an extra that uses a name of the base payload
+    #      (samples / iteration / meta / sampler ...) replaces that entry -- e.g. an extra "meta" drops the temperature and the minimum step
+    base_keys = set()
+    bcs_base = repo.cls("aspire.samplers.base:Sampler").resolve("build_checkpoint_state")
+    if bcs_base is not None:
+        for d_ in ast.walk(bcs_base.node):
+            if isinstance(d_, ast.Dict):
+                base_keys |= {k_.value for k_ in d_.keys if isinstance(k_, ast.Constant) and isinstance(k_.value, str)}
+    n_ex = 0
+    for c_ in [smc] + list(repo.subclasses(smc, strict=True)):
+        ces_ = c_.methods.get("_checkpoint_extra_state")
+        if ces_ is None:
+            continue
+        n_ex += 1
+        written = set()
+        for n_ in walk_no_nested(ces_.node):
+            if isinstance(n_, ast.Dict):
+                written |= {k_.value for k_ in n_.keys if isinstance(k_, ast.Constant) and isinstance(k_.value, str)}
+            if isinstance(n_, ast.Subscript) and isinstance(n_.ctx, ast.Store) and isinstance(n_.slice, ast.Constant) and isinstance(n_.slice.value, str) and isinstance(n_.value, ast.Name):
+                written.add(n_.slice.value)
+            if isinstance(n_, ast.Call) and isinstance(n_.func, ast.Attribute) and n_.func.attr in ("setdefault", "update") and isinstance(n_.func.value, ast.Name) and n_.args \
+                    and isinstance(n_.args[0], ast.Constant) and isinstance(n_.args[0].value, str):
+                written.add(n_.args[0].value)
+        clash = sorted(written & base_keys)
+        ctx.decide(not clash, "C11.keys", ces_.ident, loc_of(ces_), f"the extras of {c_.name} use no name of the base payload",
+                   f"{c_.name}._checkpoint_extra_state writes the key(s) {clash}, which the base payload also uses: the extras are merged over the payload, so the base entry is replaced "
+                   "(an extra 'meta' drops the checkpointed temperature and minimum step; the restore then falls back to its defaults and the resumed run starts from beta = 0)",
+                   disc=f"collision|{c_.name}")
+    ctx.count("extra_state_builders", n_ex)
+
     # ---- the sampler-specific extras are merged into every payload
     bcs0 = repo.cls("aspire.samplers.base:Sampler").resolve("build_checkpoint_state")
     evm = _Ev(repo, max_depth=1, no_inline={"aspire.samplers.base:Sampler._checkpoint_extra_state", "aspire.samplers.base:Sampler.config_dict"})
@@ -1047,6 +1077,9 @@ MUTANTS += [
 ]
 MUTANTS += [
     M("resumed run ignores a used-up iteration cap", _B, "if last_beta >= 1.0 or (\n                max_n_steps is not None and iterations >= max_n_steps\n            ):", "if last_beta >= 1.0:", "C11.finished"),
+]
+MUTANTS += [
+    M("an extra named like a base payload entry", _B, "\"sampler_kwargs\": getattr(self, \"sampler_kwargs\", None),\n        }", "\"sampler_kwargs\": getattr(self, \"sampler_kwargs\", None),\n            \"meta\": {\"note\": \"smc\"},\n        }", "C11.keys"),
 ]
 NEUTRALS = [
     M("payload metadata defaults to an empty dict that is copied before use", "src/aspire/samplers/base.py", "meta: dict | None = None,\n    ) -> dict:", "meta: dict = {},\n    ) -> dict:",
